@@ -75,6 +75,7 @@ def gen_index(i: int, seed: int, tier: str) -> dict[str, Any]:
             g = dict(rng.choice(CAPS))
             g["disc"] = {"ext": rng.choice(["ok", "ok", "drop", 0.5, 2.0]), "plain": rng.choice(["ok", "ok", "drop", 0.3, 2.5])}
             g["empty_secured_dib"] = rng.random() < 0.2
+            g["dib_order"] = rng.choice(["std", "std", "secured_first", "reversed", "families_last"])
             gws.append(g)
         flt = [rng.random() < 0.7 for _ in range(5)]
         host = rng.choice(HOSTF)
